@@ -108,7 +108,11 @@ class Interp:
     def op_hex(self, op) -> None:
         cb = self.cb
         pts = [self.pt(p) for p in op["corners"]]
-        loft = cb.Loft(cb.Face(pts[:4]), cb.Face(pts[4:]))
+        if op.get("base_face_of"):
+            # built on another operation's own top face: the two share that Face object and its points
+            loft = cb.Loft(self.env[op["base_face_of"]].top_face, cb.Face(pts[4:]))
+        else:
+            loft = cb.Loft(cb.Face(pts[:4]), cb.Face(pts[4:]))
         for e in op.get("edges", []):
             if e["kind"] == "arc" and e.get("as") == "oncurve":
                 # the same circular arc, declared as an edge snapped to a parametric circle
